@@ -263,6 +263,26 @@ def b3(ctx):
         err_label = {"f": "t", "t": "f"}.get(lab, "t")
         starts = [m for m, l in tests[0].succ if l == err_label]
         r = cfg.reachable(starts)
+        if any(w.id in r for w in writes):
+            # locals that record what happened (`writer = None ... if writer is None: abort`): follow the error
+            # path with constant propagation, the test on the exception argument decided as 'an exception is pending'
+            from .common import const_walk
+
+            def decide(t_, _v=excvar, _lab=lab):
+                l_ = test_polarity_absent(t_, _v)
+                if l_ is None:
+                    return None
+                return l_ == "f"      # absent is the f edge  <=>  the test is False when no exception... inverted below
+            # test_polarity_absent gives the edge taken when the exception argument is None; on the error path the other one
+            def decide_err(t_):
+                l_ = test_polarity_absent(t_, excvar)
+                if l_ is None:
+                    return None
+                return l_ == "f"      # error pending: take the edge opposite to 'absent' (absent=f -> test True)
+            try:
+                r = set(const_walk(cfg, [cfg.entry], {}, decide=decide_err))
+            except AnalysisError:
+                pass
         wr = [w for w in writes if w.id in r]
         ab = [a for a in aborts if a.id in r]
         obs.append(ctx.ob(not wr and bool(ab), ex.qualname, where(ex, tests[0]), "error path aborts and does not write",
